@@ -3,7 +3,8 @@
 Obligations : coq/Props/C04.v (every history: leaf buffer = per-tensor spec; explicit sum since the last reset; absent vs zero;
               unreachable unchanged; stale non-leaf buffers never leak; backward never fails)
 Ties        : K  random histories (builds over shared Parameters, backward from any node, repeated backward, retain_grad,
-                 `with retain_grads()`, Tensor.zero_ / Module.zero_grad / Optimizer.zero_grad) run on the real engine vs
+                 `with retain_grads()`, Tensor.zero_ / Module.zero_grad / Optimizer.zero_grad - half of them through real module TREES whose
+                 registrations change during the history, inspected at random points, optimizers built early or late) vs
                  Engine/History.v: every tensor's `_grad` after every event and every closure-call sequence - exactly
               K  the recorded arena vs the wrapper contract
 Oracle      : for every leaf after every event: sum over the backward calls since its last reset of the exact forward-mode
@@ -34,6 +35,17 @@ def hand_histories():
     # frozen parameter is skipped by Module.zero_grad but zeroed by Optimizer.zero_grad; retain_grad on it raises
     H.append([L(0, [2]), L(1, [3], req=False), O("mul", [0, 1], [2]), B(2, [1]), {"k": "zero_t", "t": 1}, {"k": "zero_mod", "ps": [0, 1]},
               {"k": "zero_opt", "ps": [1]}, B(2, [1]), {"k": "retain", "t": 1}])
+    # module trees whose registrations change after the tree has been looked at (seeded change C04-m2): a Parameter registered
+    # late on a nested child must be reset by root.zero_grad() and seen by an optimizer built afterwards from root.parameters()
+    M = lambda m: {"k": "mod_new", "m": m}
+    H.append([M(0), M(1), {"k": "mod_set", "m": 0, "name": "block", "child": 1}, L(0, [2]), {"k": "mod_setp", "m": 1, "name": "w", "t": 0},
+              {"k": "mod_inspect", "m": 0, "how": "num_params"}, L(1, [3]), {"k": "mod_setp", "m": 1, "name": "shift", "t": 1},
+              O("mul", [0, 1], [2]), B(2, [1]), {"k": "zero_tree", "m": 0}, B(2, [1])])
+    H.append([M(0), M(1), M(2), {"k": "mod_set", "m": 0, "name": "a", "child": 1}, L(0, [2]), {"k": "mod_setp", "m": 0, "name": "w", "t": 0},
+              {"k": "mod_inspect", "m": 0}, {"k": "mod_inspect", "m": 1}, L(1, [5]), {"k": "mod_setp", "m": 2, "name": "v", "t": 1},
+              {"k": "mod_set", "m": 1, "name": "deep", "child": 2}, {"k": "opt_new", "o": 0, "m": 0},
+              O("mul", [0, 1], [2]), B(2, [1]), B(2, [2]), {"k": "zero_optim", "o": 0}, B(2, [1]), {"k": "zero_tree", "m": 0}, B(2, [1]),
+              {"k": "mod_unset", "m": 2, "name": "v"}, {"k": "zero_tree", "m": 0}, B(2, [1])])
     return H
 
 
@@ -52,7 +64,7 @@ def run(ctx):
     n = 470 if ctx.quick else 6000
     hs = hand_histories()
     while len(hs) < n:
-        hs.append(K.gen_history(rng))
+        hs.append(K.gen_history(rng) if len(hs) % 2 else K.gen_tree_history(rng))
     execs, kept, skipped = [], [], 0
     oracle_fail = []
     for steps in hs:
@@ -85,7 +97,7 @@ def run(ctx):
                     "each leaf's .grad = sum of the true gradients of the backward calls since its last reset (None while untouched)", v)
 
 
-FINISH = dict(rule="random histories from a seeded generator plus 6 hand-written ones (the three that failed before fix d4325f2); "
+FINISH = dict(rule="random histories from a seeded generator (half of them over real module trees whose registrations change) plus 8 hand-written ones (the three that failed before fix d4325f2); "
                    "non-trivial = distinct event sequences with at least two successful backward calls")
 
 
